@@ -826,3 +826,25 @@ func init() {
 		return Tuple{p, Iface{}}
 	})
 }
+
+func init() {
+	// sort.Slice: insertion sort driven by the real less closure (reflection-free).
+	// The order of elements that compare equal is the insertion-sort order (stated in DESIGN).
+	sortSlice := func(ex *Exec, caller *frame, fn *ssa.Function, args []Value) Value {
+		s := args[0].(Iface).V.(Slice).V
+		less := args[1]
+		tb := ex.tb
+		for i := 1; i < len(s); i++ {
+			for j := i; j > 0; j-- {
+				r := ex.callValue(caller, less, []Value{tb.Const(64, uint64(j)), tb.Const(64, uint64(j-1))}, nil).(*term.T)
+				if !ex.branch(r) {
+					break
+				}
+				s[j], s[j-1] = s[j-1], s[j]
+			}
+		}
+		return nil
+	}
+	reg("sort.Slice", sortSlice)
+	reg("sort.SliceStable", sortSlice)
+}
